@@ -25,7 +25,11 @@ def std_run(ctx, spec):
             b = bins[(j["harness"], tuple(j.get("flags", ())), bool(j.get("sanitize", False)))]
             binaries[os.path.basename(b)] = b
             w = j.get("workers", D.NCPU if len(jobs) == 1 else max(6, D.NCPU // 2))
-            futs.append(ex.submit(D.run_symx, ctx, b, j["pattern"], workers=w, deadline=j.get("deadline"), profile=j.get("profile"),
+            # the per-job deadline only guards against hangs: the quick-tier tables are sized for ~1/3 of it on an idle 16-core machine
+            deadline = j.get("deadline")
+            if deadline and ctx.tier == "quick":
+                deadline = int(deadline * 2.5)
+            futs.append(ex.submit(D.run_symx, ctx, b, j["pattern"], workers=w, deadline=deadline, profile=j.get("profile"),
                                   cap=j.get("cap"), max_paths=j.get("max_paths"), label=j.get("label"), env=j.get("env"), budget=j.get("budget", False)))
         for f in futs:
             f.result()
